@@ -186,7 +186,14 @@ def peaks_dominate(supra, supra_scores, peaks, peak_scores, diameter):
 def threshold_of(scores, scores_threshold, sigma_threshold):
     """-> (threshold, band): band = half-width inside which float32/float64 accumulation order could flip a voxel"""
     if scores_threshold is not None:
-        return float(scores_threshold), 0.0
+        # a float32 map compared with a Python-float threshold: numpy (NEP 50) rounds the threshold to the map's dtype, so a
+        # voxel within one float32 spacing of the threshold can fall on either side depending on the comparison dtype; the
+        # property does not fix that hairline: such maps are not judged (band = 2 float32 ulps of the threshold magnitude)
+        t = float(scores_threshold)
+        band = 0.0
+        if np.asarray(scores).dtype.itemsize < 8 and np.asarray(scores).dtype.kind == "f":
+            band = 2.0 * float(np.spacing(np.float32(abs(t)))) if t != 0 else 0.0
+        return t, band
     s = np.asarray(scores, dtype=np.float64).ravel()
     n = s.size
     mean = s.sum() / n
